@@ -409,6 +409,122 @@ def _request_failure_job(idx):
     return [p.value if p.kind == "return" else ("unsupported", name, "%s %s" % (p.kind, str(p.value)[:200])) for p in paths]
 
 
+DWF_SRC = '''
+from pysmt.typing import BOOL
+
+
+def xor_type(walker, formula, args, **kwargs):
+    return BOOL
+
+
+def xor_simplify(walker, formula, args, **kwargs):
+    mgr = walker.env.formula_manager
+    return mgr.Not(mgr.Iff(args[0], args[1]))
+
+
+def xor_free_vars(walker, formula, args, **kwargs):
+    return frozenset(x for a in args for x in a)
+
+
+def xor_substitute(walker, formula, args, **kwargs):
+    return walker.env.formula_manager.create_node(node_type=formula.node_type(), args=tuple(args))
+
+
+def xor_size(walker, formula, args, **kwargs):
+    return 1 + sum(args)
+'''
+DWF_SERVICES = [("simplifier", "pysmt.simplifier.Simplifier", "xor_simplify", "simplify"),
+                ("fvo", "pysmt.oracles.FreeVarsOracle", "xor_free_vars", "get_free_variables"),
+                ("substituter", "pysmt.substituter.MGSubstituter", "xor_substitute", "substitute"),
+                ("sizeo", "pysmt.oracles.SizeOracle", "xor_size", "get_size")]
+
+
+def _dwf_job(idx):
+    """Unsupported operator: a node of a custom node type is handed to a service that has no handler for it (the call fails),
+    then the handler is registered the documented way (Environment.add_dynamic_walker_function) and the call is made again:
+    it answers as in an environment where the failing call was never made."""
+    svc, cls, fname, meth = DWF_SERVICES[idx]
+    from ..common import get_repo
+    repo = get_repo()
+    repo.add_virtual("sa_probe.dwf", DWF_SRC)
+
+    def one(ex):
+        def world(with_failure):
+            it, w, env = _fresh(ex)
+            opm = w.repo.modules["pysmt.operators"]
+            pm = w.repo.modules["sa_probe.dwf"]
+            N = it.call(it.module_global(opm, "new_node_type"), [], {"node_str": "xor"})
+            it.call(it.getattr(w.env, "add_dynamic_walker_function"), [N, ClassRef("pysmt.type_checker.SimpleTypeChecker"), it.module_global(pm, "xor_type")])
+            a, b, c = env["a"], env["b"], env["c"]
+            f = it.call(it.getattr(w.mgr, "create_node"), [], {"node_type": N, "args": (a, b)})
+            g = w.app("And", c, it.call(it.getattr(w.mgr, "create_node"), [], {"node_type": N, "args": (f, c)}))
+            service = it.getattr(w.env, svc)
+
+            def ask(t):
+                args = [t] if meth != "substitute" else [t, {a: c}]
+                r = it.call(it.getattr(service, meth), args)
+                if w.is_node(r):
+                    return _node_sig(w, it, r)
+                if isinstance(r, (set, frozenset)):
+                    return sorted(w.npayload(x)[0] for x in r)
+                return r
+            first = None
+            if with_failure:
+                for t in (f, g):
+                    try:
+                        ask(t)
+                        first = "answered without a handler"
+                    except AbsRaise as ex_:
+                        first = first or ("raises " + ex_.cls_name)
+            it.call(it.getattr(w.env, "add_dynamic_walker_function"), [N, ClassRef(cls), it.module_global(pm, fname)])
+            later = []
+            for t in (f, g, w.app("Or", a, w.app("Not", b)), f):
+                try:
+                    later.append(("returns", ask(t)))
+                except AbsRaise as ex_:
+                    later.append(("raises", ex_.cls_name))
+            return first, later
+        first, got = world(True)
+        _f, want = world(False)
+        name = "%s.%s on a node of a custom node type" % (cls.split(".")[-1], meth)
+        if first is None or not first.startswith("raises"):
+            return ("unsupported", name, "the call without a handler %s" % first)
+        if any(x[0] != "returns" for x in want):
+            return ("unsupported", name, "with the handler registered the service still %s" % (want,))
+        if got != want:
+            k = [i for i, (x, y) in enumerate(zip(got, want)) if x != y][0]
+            return ("bad", "dwf|%s" % svc, "%s: the call fails (%s) while no handler is registered; after Environment.add_dynamic_walker_function "
+                    "registered one, call no. %d %s %r; in an environment where the failing call was never made it %s %r"
+                    % (name, first, k + 1, got[k][0], got[k][1], want[k][0], want[k][1]))
+        return ("ok", name, "fails while no handler is registered (%s); after registration answers as in an environment that never saw the failing call" % first)
+    try:
+        paths = Explorer(max_paths=4).run(one)
+    except Unsupported as e:
+        return [("unsupported", svc, str(e))]
+    return [p.value if p.kind == "return" else ("unsupported", svc, "%s %s" % (p.kind, str(p.value)[:200])) for p in paths]
+
+
+def _node_sig(w, it, n):
+    """structure of a node that may contain custom node types"""
+    if not w.is_node(n):
+        return repr(n)
+    nt = n.attrs["_content"].attrs["node_type"] if "_content" in n.attrs else None
+    try:
+        op = w.opname(n)
+    except Exception:        # noqa - custom node type
+        op = "custom"
+    if op in ("SYMBOL",):
+        return w.npayload(n)[0]
+    return (op if op != "custom" else "type%s" % nt,) + tuple(_node_sig(w, it, x) for x in w.nargs(n))
+
+
+def dwf_results():
+    out = []
+    for r in parallel_map(_dwf_job, list(range(len(DWF_SERVICES)))):
+        out.extend(r)
+    return out
+
+
 def failure_results():
     out = []
     for r in (parallel_map(_failure_job, list(range(len(ill_typed())))) + parallel_map(_type_failure_job, list(range(8)))
